@@ -35,6 +35,9 @@ type vpOpts struct {
 }
 
 func vpluginPath() string {
+	if p := os.Getenv("VERIF_VPLUGIN"); p != "" {
+		return p
+	}
 	b := os.Getenv("VERIF_BUILD")
 	if b == "" {
 		b = "/verif/build"
